@@ -24,7 +24,9 @@ Act == \/ E.op = "open" /\ Open
 Match == /\ last'.k = E.k /\ last'.ids = E.ids
          /\ (E.k = "val" => last'.v = E.v)
          /\ (E.k = "rat" => E.v[1] * sr = last'.v * E.v[2])          \* logged num/den equals pos / sr
-Step == l <= Len(Ev) /\ l' = l + 1 /\ tid' = tid /\ Act /\ Match
+\* a read of more than a million samples: the event carries the first id, the count and whether the bytes matched, not the ids
+BigRead == E.op = "bigread" /\ Read(E.arg) /\ last'.k = E.k /\ Len(last'.ids) = E.len /\ (E.len > 0 => last'.ids[1] = E.first) /\ E.match
+Step == l <= Len(Ev) /\ l' = l + 1 /\ tid' = tid /\ ((Act /\ Match) \/ BigRead)
 TSpec == TInit /\ [][Step]_tvars
 Mon == (~C11 => TLCSet(100000 + tid, 1)) /\ TLCSet(tid, l)
 ASSUME \A t \in 1..Len(Traces) : \A b \in {0, 100000} : TLCSet(b + t, 0)
